@@ -48,8 +48,18 @@ Definition SlotSet (s : st) (m k : nat) : Prop :=
 
 Lemma SlotSet_mono s s' m k : sle s s' -> SlotSet s m k -> SlotSet s' m k.
 Proof.
-  intros [Hh _] (slots & x & A & B). destruct (Hh m slots A) as (slots' & A' & L & K).
+  intros (Hh & _) (slots & x & A & B). destruct (Hh m slots A) as (slots' & A' & L & K).
   destruct (K k x B) as (y & Hy). exists slots', y. auto.
+Qed.
+
+Definition FieldDone (s : st) (m : nat) (p : rpath) (k : nat) (key : bytes) (fp : fplan) : Prop :=
+  SlotSet s m k /\ (fp_nn fp = true -> fails_f fp = false) /\
+  Forall (Fired s) (must_CF fp (PKey key :: p)).
+
+Lemma FieldDone_mono s s' m p k key fp : sle s s' -> FieldDone s m p k key fp -> FieldDone s' m p k key fp.
+Proof.
+  intros Hs (A & B & C). split; [eapply SlotSet_mono; eauto|]. split; auto.
+  eapply Forall_impl; [|exact C]. intros a. now apply Fired_mono.
 Qed.
 
 Definition MapOK (G : ghe) (s : st) (m : nat) (fields : selset) : Prop :=
@@ -58,7 +68,7 @@ Definition MapOK (G : ghe) (s : st) (m : nat) (fields : selset) : Prop :=
 
 Lemma MapOK_mono G s G' s' m fields : gle G G' -> sle s s' -> MapOK G s m fields -> MapOK G' s' m fields.
 Proof.
-  intros Hg [Hh _] [A (slots & B & L)]. split; [eapply gle_nth; eauto|].
+  intros Hg (Hh & _) [A (slots & B & L)]. split; [eapply gle_nth; eauto|].
   destruct (Hh m slots B) as (slots' & B' & L' & _). exists slots'. split; auto. congruence.
 Qed.
 
@@ -74,7 +84,7 @@ Lemma set_step G s m i key fp fields v g :
 Proof.
   intros I [A (slots & B & L)] N V. split.
   - split; [apply gle_refl|]. split.
-    + split; [apply hle_heap_set | apply proms_le_refl].
+    + apply sle_heap; [apply hle_heap_set | reflexivity | reflexivity].
     + split; [|apply Acct_same; repeat split].
       rewrite heap_set_maps. eapply INV_set; eauto. now apply entries_nth.
   - unfold SlotSet. rewrite heap_set_maps.
@@ -118,7 +128,7 @@ Lemma sel_build p m fields :
           exists newf idxs, futs = futs0 ++ newf /\ LiveSel G' s' m p fields newf idxs g' /\
             Forall is_pending newf /\
             (forall k key fp, i <= k -> nth_error fields k = Some (key, fp) ->
-               In k idxs \/ (SlotSet s' m k /\ (fp_nn fp = true -> fails_f fp = false))) /\
+               In k idxs \/ FieldDone s' m p k key fp) /\
             (idxs <> [] -> Blocked s' g')
       end.
 Proof.
@@ -148,7 +158,7 @@ Proof.
     assert (Lp' : length (pre ++ [(key, fp)]) = S i) by (rewrite app_length; simpl; lia).
     destruct f1 as [[v|e]|c]; simpl in O1.
     + (* ready with a value: store it, go on *)
-      destruct O1 as [[F V] ->].
+      destruct O1 as [(F & V & Mu) ->].
       destruct (set_step G1 s2 m i key fp fields v (gplus g0 (budget_sel p tl)) I1 MO1 Hn V) as [St2 SS].
       set (s3 := heap_set m i key v s2) in *.
       assert (I3 : INV G1 (s_maps s3)) by (destruct St2 as (_ & _ & X & _); exact X).
@@ -167,9 +177,11 @@ Proof.
       * destruct M as (newf & idxs & Efu & LS & FP & Cov & Bl).
         exists newf, idxs. split; auto. split; auto. split; auto. split; auto.
         intros k key0 fp0 Hk Hnk. destruct (Nat.eq_dec k i) as [->|Hne].
-        -- right. rewrite Hn in Hnk. injection Hnk as <- <-. split.
-           ++ destruct St as (_ & A2 & _). eapply SlotSet_mono; eauto.
+        -- right. rewrite Hn in Hnk. injection Hnk as <- <-.
+           destruct St as (_ & A2 & _). eapply FieldDone_mono; [exact A2|].
+           split; [exact SS|]. split.
            ++ intros N. simpl in F. rewrite N in F. exact F.
+           ++ destruct St2 as (_ & B2 & _). eapply Forall_impl; [|exact Mu]. intros a. now apply Fired_mono.
         -- apply (Cov k key0 fp0); auto. lia.
     + (* ready with an error: executeSelections returns at once *)
       injection E as <- <- <-. destruct O1 as [[F In] ->].
@@ -231,24 +243,32 @@ Proof.
   apply andb_true_iff in F. destruct F as [N F]. rewrite (Cov k key fp Hk N) in F. discriminate.
 Qed.
 
-Lemma sel_done G s m fields :
+Lemma must_sel_fired s p (l : selset) :
+  (forall kf, In kf l -> Forall (Fired s) (must_CF (snd kf) (PKey (fst kf) :: p))) ->
+  Forall (Fired s) (must_sel must_F p l).
+Proof.
+  induction l as [|[key fp] tl IH]; intros H; simpl; [constructor|].
+  apply Forall_app. split.
+  - apply (H (key, fp)). now left.
+  - apply IH. intros kf Hin. apply H. now right.
+Qed.
+
+Lemma sel_done G s m p fields :
   MapOK G s m fields ->
   (forall k key fp, nth_error fields k = Some (key, fp) ->
-     SlotSet s m k /\ (fp_nn fp = true -> fails_f fp = false)) ->
-  ResOK G s (spec_I (VObj fields) nil) (ROk (GMap m)).
+     FieldDone s m p k key fp) ->
+  ResOK G s (spec_I (VObj fields) p) (ROk (GMap m)).
 Proof.
-  intros [A (slots & B & L)] Cov. unfold ResOK, spec_I. cbn [ps_fails ps_json]. split.
+  intros [A (slots & B & L)] Cov. unfold ResOK, spec_I. cbn [ps_fails ps_json ps_must]. split; [|split].
   - rewrite fails_inner_obj. apply sel_not_fails. intros k key fp Hk. now apply (Cov k key fp Hk).
   - rewrite jv_obj. econstructor; eauto.
     eapply slots_full; eauto. intros k Hk.
     destruct (nth_error fields k) as [[key fp]|] eqn:E; [|apply nth_error_None in E; lia].
     now apply (Cov k key fp E).
+  - change (must_I (VObj fields) p) with (must_sel must_F p fields). apply must_sel_fired.
+    intros [key fp] Hin. apply In_nth_error in Hin. destruct Hin as [k Hk]. simpl.
+    now apply (Cov k key fp Hk).
 Qed.
-
-Lemma spec_I_obj_path fields p q G s r :
-  ResOK G s (spec_I (VObj fields) q) r -> (forall e, r = RErr e -> In e (fst (cand_inner (VObj fields) p))) ->
-  ResOK G s (spec_I (VObj fields) p) r.
-Proof. destruct r; simpl; auto. intros [F _] H. split; auto. Qed.
 
 Definition budget_S (fields : selset) (p : rpath) : ghost := budget_I (VObj fields) p.
 
@@ -271,7 +291,7 @@ Proof.
     - exists (repeat None (length fields)). split; [|apply repeat_length].
       unfold s0. simpl. rewrite nth_error_app2 by (unfold m; lia). unfold m. rewrite Nat.sub_diag. reflexivity. }
   assert (St0 : Step G s (budget_I (VObj fields) p) G0 s0 (budget_sel p fields)).
-  { split; [eexists; reflexivity|]. split; [split; [apply hle_alloc | apply proms_le_refl]|].
+  { split; [eexists; reflexivity|]. split; [apply sle_heap; [apply hle_alloc | reflexivity | reflexivity]|].
     split; [exact I0|]. apply Acct_same. repeat split. }
   assert (C0 : chans_wf s0) by exact C.
   destruct (sel_loop (exec_field FX) m p fields 0 [] s0) as [[early futs] s1] eqn:EL.
@@ -290,10 +310,8 @@ Proof.
     + (* everything was ready *)
       destruct (LiveSel_nil_inv _ _ _ _ _ _ _ LS) as [-> ->].
       simpl in E. injection E as <- <-. exists G', g0. split; [eapply Step_trans; eauto|].
-      split; auto. eapply spec_I_obj_path with (q := nil).
-      * apply sel_done; auto. intros k key fp Hk.
-        destruct (Cov k key fp (Nat.le_0_l k) Hk) as [[]|X]. exact X.
-      * intros e X. discriminate.
+      split; auto. apply sel_done; auto. intros k key fp Hk.
+      destruct (Cov k key fp (Nat.le_0_l k) Hk) as [[]|X]. exact X.
     + (* some futures are outstanding *)
       assert (EA : After (f0 :: tl0) = Pending (CAfter (f0 :: tl0))).
       { unfold After. inversion FP as [|? ? Hf Ht]; subst. destruct f0 as [r|c0]; [simpl in Hf; contradiction|].
@@ -366,7 +384,7 @@ Lemma after_step p m fields :
       | _ =>
           exists idxs', LiveSel G' s' m p fields futs' idxs' g' /\
             (forall k key fp, In k idxs -> nth_error fields k = Some (key, fp) ->
-               In k idxs' \/ (SlotSet s' m k /\ (fp_nn fp = true -> fails_f fp = false))) /\
+               In k idxs' \/ FieldDone s' m p k key fp) /\
             match o with
             | LAllOk => ok = true /\ idxs' = [] /\ g' = g0
             | _ => ok = false \/ (idxs' <> [] /\ Blocked s' g')
@@ -405,7 +423,7 @@ Proof.
         now apply Acct_frame_r. }
       destruct r as [[v|e]|]; simpl in O1.
       * (* the field completed with a value: the setter stores it *)
-        destruct O1 as [[F V] ->]. unfold set_slot in E at 1.
+        destruct O1 as [(F & V & Mu) ->]. unfold set_slot in E at 1.
         destruct (set_step G1 s1 m i key fp fields v (gplus g0 g2) I1 MO1 Hn V) as [St2 SS].
         set (s3 := heap_set m i key v s1) in *.
         assert (I3 : INV G1 (s_maps s3)) by (destruct St2 as (_ & _ & X & _); exact X).
@@ -420,10 +438,11 @@ Proof.
         exists G', g'. split.
         { eapply Step_trans; [exact StF|]. eapply Step_trans; [exact St2|].
           rewrite gplus_g0_l. exact St. }
-        assert (SS' : SlotSet s4 m i).
-        { destruct St as (_ & A2 & _). eapply SlotSet_mono; eauto. }
-        assert (NF : fp_nn fp = true -> fails_f fp = false).
-        { intros N. simpl in F. rewrite N in F. exact F. }
+        assert (SS' : FieldDone s4 m p i key fp).
+        { destruct St as (_ & A2 & _). eapply FieldDone_mono; [exact A2|].
+          split; [exact SS|]. split.
+          - intros N. simpl in F. rewrite N in F. exact F.
+          - destruct St2 as (_ & B2 & _). eapply Forall_impl; [|exact Mu]. intros a. now apply Fired_mono. }
         destruct o1 as [e| |]; auto.
         -- destruct M as (idxs' & LS & Cov & X). exists idxs'. split; [now constructor|]. split; auto.
            intros k key0 fp0 [<-|Hk] Hnk.
@@ -489,13 +508,13 @@ Proof.
   { destruct St as (A1 & A2 & _). eapply MapOK_mono; eauto. }
   assert (CovAll : forall idxs',
              (forall k key fp, In k idxs -> nth_error fields k = Some (key, fp) ->
-                In k idxs' \/ (SlotSet s1 m k /\ (fp_nn fp = true -> fails_f fp = false))) ->
+                In k idxs' \/ FieldDone s1 m p k key fp) ->
              forall k key fp, nth_error fields k = Some (key, fp) ->
-                In k idxs' \/ (SlotSet s1 m k /\ (fp_nn fp = true -> fails_f fp = false))).
-  { intros idxs' Cov k key fp Hk. destruct (Cov0 k key fp Hk) as [X|[[x Hx] NF]].
+                In k idxs' \/ FieldDone s1 m p k key fp).
+  { intros idxs' Cov k key fp Hk. destruct (Cov0 k key fp Hk) as [X|[[x Hx] [NF Mu]]].
     - eapply Cov; eauto.
-    - right. split; auto. destruct St as (_ & A2 & _). eapply SlotSet_mono; eauto.
-      exists slots, x. auto. }
+    - right. destruct St as (_ & A2 & _). eapply FieldDone_mono; [exact A2|].
+      split; [exists slots, x; auto|]. split; auto. }
   destruct o as [e| |]; injection E as <- <- <-.
   - destruct M as [SF In]. exists G', g0. split.
     + destruct St as (A1 & A2 & A3 & A4). split; auto. split; auto. split; auto.
@@ -503,10 +522,8 @@ Proof.
     + split; auto. unfold ResOK, spec_I. cbn [ps_fails ps_esc]. split; auto.
       rewrite fails_inner_obj. exact SF.
   - destruct M as (idxs' & LS & Cov & (_ & -> & ->)). exists G', g0. split; auto.
-    split; auto. eapply spec_I_obj_path with (q := nil).
-    + apply sel_done; auto. intros k key fp Hk.
-      destruct (CovAll [] Cov k key fp Hk) as [[]|X]. exact X.
-    + intros e X. discriminate.
+    split; auto. apply sel_done; auto. intros k key fp Hk.
+    destruct (CovAll [] Cov k key fp Hk) as [[]|X]. exact X.
   - destruct M as (idxs' & LS & Cov & D). destruct D as [D|[D1 D2]]; [discriminate|].
     exists G', g'. split; auto. split; auto.
     destruct MO' as [A (slots' & B & L')].
